@@ -247,7 +247,13 @@ func solve(asserts []*Term, opts ScriptOpts, timeoutSec int) solveResult {
 // best on large near-propositional queries — and z3 4.8.12's default nlsat — best on conjunctive path queries),
 // plus a small-lattice integer query that can only contribute "sat" (a replayable counterexample).
 // First definitive answer wins; if both real queries give up, z3 5.1's default tactic is tried.
-func portfolio(realScript, intSmall string, timeoutSec int, noRetry bool) (solveResult, bool) {
+func portfolio(realScript, intSmall string, timeoutSec int, noRetry bool, nlsatFirst bool) (solveResult, bool) {
+	if nlsatFirst {
+		r := runSolver(realScript, timeoutSec/4+5, "z3")
+		if r.status == "sat" || r.status == "unsat" {
+			return r, false
+		}
+	}
 	ctx, cancel := context.WithCancel(context.Background())
 	defer cancel()
 	type tagged struct {
